@@ -194,6 +194,24 @@ pub fn apply<R: RngCore>(g: &mut R, op: &Op) -> Out {
     }
 }
 
+/// replace a generator by its own clone in place (no-op for JitterRng, whose
+/// clone deliberately drops the pending half — C16's subject)
+pub trait MaybeCloneSplice {
+    fn splice_clone(&mut self);
+}
+impl<F> MaybeCloneSplice for rand_jitter::JitterRng<F> {
+    fn splice_clone(&mut self) {}
+}
+macro_rules! splice_impl {
+    ($($t:ty),*) => { $(impl MaybeCloneSplice for $t { fn splice_clone(&mut self) { let c = self.clone(); *self = c; } })* };
+}
+splice_impl!(rand_xoshiro::Xoroshiro64Star, rand_xoshiro::Xoroshiro64StarStar, rand_xoshiro::Xoroshiro128Plus,
+    rand_xoshiro::Xoroshiro128PlusPlus, rand_xoshiro::Xoroshiro128StarStar, rand_xoshiro::Xoshiro128Plus,
+    rand_xoshiro::Xoshiro128PlusPlus, rand_xoshiro::Xoshiro128StarStar, rand_xoshiro::Xoshiro256Plus,
+    rand_xoshiro::Xoshiro256PlusPlus, rand_xoshiro::Xoshiro256StarStar, rand_xoshiro::Xoshiro512Plus,
+    rand_xoshiro::Xoshiro512PlusPlus, rand_xoshiro::Xoshiro512StarStar, rand_xoshiro::SplitMix64,
+    rand_xorshift::XorShiftRng, rand_hc::Hc128Rng, rand_isaac::IsaacRng, rand_isaac::Isaac64Rng);
+
 /// lazily extended native word stream of a twin
 pub struct Twin<F: FnMut() -> u64> {
     pub words: Vec<u64>,
@@ -223,7 +241,7 @@ struct HistStats {
 
 /// Run one history against the projection model. `real` and `twin_next` must
 /// come from identical seeds / timers. Returns Err(detail) on divergence.
-fn check_history<R: RngCore>(
+fn check_history<R: RngCore + MaybeCloneSplice>(
     name: &str,
     fam: PFam,
     real: &mut R,
@@ -250,6 +268,10 @@ fn check_history<R: RngCore>(
     while let Some(op) = next_op(i, &proj) {
         let pos_before = proj.pos;
         let pending_before = proj.pending.is_some();
+        // the stream continues unchanged across clone() (deterministic generators)
+        if i % 5 == 3 {
+            real.splice_clone();
+        }
         let want = proj.expect(&op, &mut |k| twin.word(k));
         let got = apply(real, &op);
         r.eval();
@@ -331,7 +353,10 @@ pub fn boundary_sequence(fam: PFam, len: usize, mut id: u64) -> Vec<Op> {
     (0..len).map(|_| { let k = (id % a.len() as u64) as usize; id /= a.len() as u64; a[k].clone() }).collect()
 }
 
-fn boundary_case<S: Spec>(sub: &str, id: u64, r: &mut Report) {
+fn boundary_case<S: Spec>(sub: &str, id: u64, r: &mut Report)
+where
+    S::R: MaybeCloneSplice,
+{
     // id = ((start_slot * 2 + half) * A^3) + sequence index; start positions:
     // two words before the block end, one before, exhausted, fresh, one into it
     let fam: PFam = S::FAMILY.into();
@@ -409,7 +434,10 @@ fn word_bytes(f: Family) -> usize {
     (f.native_bits() / 8) as usize
 }
 
-fn seeded_case<S: Spec>(sub: &str, id: u64, pre_skip_forced: Option<usize>, r: &mut Report) {
+fn seeded_case<S: Spec>(sub: &str, id: u64, pre_skip_forced: Option<usize>, r: &mut Report)
+where
+    S::R: MaybeCloneSplice,
+{
     let mut p = Prng::new(id);
     let fam: PFam = S::FAMILY.into();
     let (class, seed) = gen_seed(&mut p, S::SEED_LEN, word_bytes(S::FAMILY), true);
@@ -488,8 +516,74 @@ fn jitter_case(sub: &str, id: u64, r: &mut Report) {
     }
 }
 
+/// JitterRng with a timer that panics at a chosen reading inside a call (the
+/// caller recovers with catch_unwind): the aborted call handed nothing out, so
+/// every later call must again be the projection of the next whole words of the
+/// stream (re-synchronised through the pool hook and the timer position)
+fn jitter_fault_case(sub: &str, id: u64, r: &mut Report) {
+    let mut p = Prng::new(id);
+    let rounds = *p.pick(&[1u8, 2, 3]);
+    let readings = gen_script(&mut p, 0, 600);
+    let tail = p.u64();
+    let t_real = ScriptedTimer::new(readings.clone(), tail);
+    let t_twin = ScriptedTimer::new(readings, tail);
+    let mut real = rand_jitter::JitterRng::new_with_timer(t_real.closure());
+    let mut twin = rand_jitter::JitterRng::new_with_timer(t_twin.closure());
+    real.set_rounds(rounds);
+    twin.set_rounds(rounds);
+    let mut proj = Proj::new(PFam::Jitter);
+    let mut words: Vec<u64> = Vec::new();
+    let mut log: Vec<String> = Vec::new();
+    let mut faults = 0;
+    for _ in 0..p.range(6, 20) {
+        let op = gen_out_op(&mut p, 0, 8);
+        if p.chance(1, 4) && !matches!(op, Op::Fill(0)) {
+            let at = p.below(3 * (1 + rounds as u64)) as usize;
+            log.push(format!("{}!fault@+{}", op.show(), at));
+            t_real.inject_fault_after(at);
+            let res = guarded(|| apply(&mut real, &op));
+            let fired = !t_real.fault_pending();
+            t_real.clear_fault();
+            match res {
+                Err(c) if c.message.contains(TIMER_FAULT_MSG) => {
+                    faults += 1;
+                    // nothing was handed out; nothing is pending; resynchronise the twin
+                    twin.verif_set_pool(real.verif_pool());
+                    t_twin.set_pos(t_real.calls());
+                    proj.pending = None;
+                    words.truncate(proj.pos);
+                    continue;
+                }
+                Err(c) => { r.violation(format!("JitterRng:{}", c.signature()), sub, id, json!({"history": log.join(",")})); return; }
+                Ok(_) if !fired => {
+                    // the call did not reach the faulty reading (it served a pending half):
+                    // abandon this history, nothing can be concluded from it
+                    r.cov("fault_not_reached");
+                    return;
+                }
+                Ok(_) => { r.inconclusive("fault fired but the call returned".into()); return; }
+            }
+        }
+        log.push(op.show());
+        let want = proj.expect(&op, &mut |k| { while words.len() <= k { words.push(twin.next_u64()); } words[k] });
+        let got = apply(&mut real, &op);
+        r.eval();
+        if got != want {
+            r.violation(format!("JitterRng:projection:after_timer_fault:{}", op.show().split('(').next().unwrap()), sub, id, json!({
+                "history": log.join(","), "rounds": rounds, "faults_before": faults, "expected": want.show(), "observed": got.show(),
+                "note": "after a panic of the timer closure inside a call (recovered by the caller) a later call is not the projection of the next whole word(s)"}));
+            return;
+        }
+    }
+    if faults > 0 {
+        r.cov("jitter_faults_recovered");
+    }
+    r.distinct(hkey(&[&"jitter_fault", &id]));
+}
+
 fn case(sub: &str, id: u64, r: &mut Report) {
     match sub {
+        "jitter_fault" => jitter_fault_case(sub, id, r),
         "history" => {
             let ti = (Prng::new(id ^ 0xabc).below(N_TYPES as u64 + 1)) as usize;
             if ti == N_TYPES {
@@ -562,7 +656,9 @@ pub fn run(ctx: &Ctx, only: Option<&Only>) -> Report {
     let _ = &mut n_boundary;
     let secs = if ctx.tier_thorough { ctx.budget_s } else { 0.0 };
     total.merge(drive(ctx, "history", ctx.n(60_000, 60_000), secs * 0.8, |id, r| case("history", id, r)));
-    total.merge(drive(ctx, "jitter", ctx.n(1_500, 1_500), secs * 0.2, |id, r| case("jitter", id, r)));
+    total.merge(drive(ctx, "jitter", ctx.n(1_500, 1_500), secs * 0.15, |id, r| case("jitter", id, r)));
+    total.merge(drive(ctx, "jitter_fault", ctx.n(1_500, 1_500), secs * 0.05, |id, r| case("jitter_fault", id, r)));
+    total.floor("jitter_faults_recovered", 300);
     for name in TYPE_NAMES.iter().chain(["JitterRng"].iter()) {
         total.floor(&format!("type:{}", name), 20);
         total.floor(&format!("boundary:{}", name), 700);
